@@ -279,7 +279,7 @@ class Prop:
                 ('feed', 0, pdu_cache_response(1) + pdu_prefix(0, n4(10, 0, 0, 0, 8), 24, 65001) + pdu_eod(1, 6)),
                 ('close', 1), ('cancel', 0)]},
         ]
-        nc, nn = (700, 120) if tier == 'quick' else (4000, 600)
+        nc, nn = (700, 120) if tier == 'quick' else (2000, 300)
         for _ in range(nc): cases.append(self.gen_case(rng, tier, True))
         for _ in range(nn): cases.append(self.gen_case(rng, tier, False))
         return cases
